@@ -43,7 +43,8 @@ def cases(tier, seed, shard, nshards):
             spec = gen.iter_spec(rng, name, 3)
             if name == "cycle":
                 spec["steps"] = rng.randint(1, 6)
-        flav = [rng.choice(["async_gen", "async_class", "async_class"]) for _ in spec["srcs"]]
+        flav = [rng.choice(["async_gen", "async_class", "async_class", "async_class_bare", "async_class_proxy",
+                            "async_class_future"]) for _ in spec["srcs"]]
         yield {"kind": "tool", "spec": spec, "flav": flav, "susp": rng.choice([1, 1, 2]), "fn_susp": rng.choice([0, 1]),
                "fnfl": "async_def"}
     yield from special.cases(tier, seed, shard, nshards, rng)
@@ -85,7 +86,7 @@ def run_tool(case, stats):
         else:
             pairs = list(zip(srcs, flav))
         for st, f in pairs:
-            if not st.released():
+            if f != "async_class_bare" and not st.released():  # (an iterator without aclose cannot be released)
                 leaked.append(st.sid)
         if leaked:
             stats["leaks_seen"] += 1
